@@ -47,6 +47,35 @@ class World:
             tm = s1.Service1Tm.unpack(bytes(tm.pack()), s1.UnpackParams(7, 1, 1))
         return tm
 
+    def ghost_report(self, t, sub, k, how):
+        """a report for a request ID that equals TC t's except for one group of bits"""
+        from spacepackets.ecss import pus_1_verification as s1
+        from spacepackets.ecss.fields import PacketFieldEnum
+        from spacepackets.ecss.req_id import RequestId
+        from spacepackets.ccsds.spacepacket import PacketId, PacketSeqCtrl, PacketType, SequenceFlags
+        rid = self.rid[t]
+        pid, psc, ver = rid.tc_packet_id, rid.tc_psc, rid.ccsds_version
+        if how == "version":
+            ver = 1 + (k + t) % 7
+        elif how == "type":
+            pid = PacketId(PacketType.TM, pid.sec_header_flag, pid.apid)
+        elif how == "shf":
+            pid = PacketId(pid.ptype, not pid.sec_header_flag, pid.apid)
+        elif how == "flags":
+            psc = PacketSeqCtrl(SequenceFlags((int(psc.seq_flags) + 1 + k) % 4 if (int(psc.seq_flags) + 1 + k) % 4 != int(psc.seq_flags)
+                                              else (int(psc.seq_flags) + 1) % 4), psc.seq_count)
+        elif how == "version+count":       # version bits that are already set in the sequence control word
+            ver, psc = 6, PacketSeqCtrl(SequenceFlags.UNSEGMENTED, psc.seq_count)
+        ghost = RequestId(pid, psc, ver)
+        fn = s1.FailureNotice(PacketFieldEnum(8, 3), b"\x01\x02") if sub % 2 == 0 else None
+        step = PacketFieldEnum(8, max(k, 1)) if sub in (5, 6) else None
+        tm = s1.Service1Tm(apid=5, subservice=s1.Subservice(sub), timestamp=bytes(7),
+                           verif_params=s1.VerificationParams(ghost, step, fn))
+        self.flip += 1
+        if self.flip % 2 == 0:
+            tm = s1.Service1Tm.unpack(bytes(tm.pack()), s1.UnpackParams(7, 1, 1))
+        return tm
+
     def status(self, s):
         return {"all": bool(s.all_verifs_recvd), "acc": int(s.accepted), "sta": int(s.started), "stp": int(s.step),
                 "steps": [int(x) for x in s.step_list], "cmp": int(s.completed)}
@@ -68,6 +97,11 @@ class World:
             return bool(v.add_tc(self.tcs[ev["t"]]))
         if a == "add_tm":
             r = v.add_tm(self.report(ev["t"], ev["sub"], ev["k"]))
+            if r is None:
+                return {"none": True}
+            return {"completed": bool(r.completed), "status": self.status(r.status)}
+        if a == "ghost_tm":
+            r = v.add_tm(self.ghost_report(ev["t"], ev["sub"], ev["k"], ev["how"]))
             if r is None:
                 return {"none": True}
             return {"completed": bool(r.completed), "status": self.status(r.status)}
@@ -167,7 +201,11 @@ def histories(ctx):
             elif r < 0.88:
                 sub = rng.choice([1, 3, 5, 7, rng.randrange(1, 9), rng.randrange(1, 9)])
                 ev = {"op": "add_tm", "t": t, "sub": sub, "k": rng.randrange(1, 5) if sub in (5, 6) else 0}
-            elif r < 0.95:
+            elif r < 0.92:
+                sub = rng.randrange(1, 9)
+                ev = {"op": "ghost_tm", "t": t, "sub": sub, "k": rng.randrange(1, 5) if sub in (5, 6) else 0,
+                      "how": rng.choice(["version", "version", "type", "shf", "flags", "version+count"])}
+            elif r < 0.96:
                 ev = {"op": "remove_entry", "t": t}
             else:
                 ev = {"op": "remove_completed"}
